@@ -32,6 +32,8 @@ pub fn chained_indices(indices: &[[u32; 2]]) -> Vec<Vec<u32>> {
     let mut forward = true;
 
     while !pairs.is_empty() {
+        #[cfg(feature = "verif")]
+        crate::verif_hooks::tick("indices::chained_indices");
         // If working is empty, start a new chain with the first pair
         if working.is_empty() {
             let i = pairs.pop().unwrap();
